@@ -28,7 +28,10 @@ def hash_of(session):
 # ------------------------------------------------------------------ rng (deterministic)
 class Rng:
     def __init__(self, seed):
-        self.s = (seed * 0x9E3779B97F4A7C15 + 0x1234567) & (2**64 - 1)
+        z = (seed + 0x1234567) & (2**64 - 1)
+        z = ((z ^ (z >> 30)) * 0xBF58476D1CE4E5B9) & (2**64 - 1)
+        z = ((z ^ (z >> 27)) * 0x94D049BB133111EB) & (2**64 - 1)
+        self.s = z ^ (z >> 31)
 
     def next(self):
         self.s = (self.s + 0x9E3779B97F4A7C15) & (2**64 - 1)
